@@ -1297,29 +1297,33 @@ def realtime_crosscheck(binary):
     return outs[0]
 
 
-def apalache_expiry(rep):
-    """unbounded part of C12: Apalache discharges the inductive invariant of spec/apalache/Expiry.tla (base + step)"""
+def apalache_ind(rep, prop, module, scope):
+    """unbounded part: Apalache discharges the inductive invariant IndInv of spec/apalache/<module>.tla (base + step)"""
     import subprocess, shutil
     d = os.path.join(vlib.SPEC, 'apalache')
     out_dir = os.path.join(vlib.workdir(), 'apa')
     res = []
     for what, extra in (('base', ['--init=Init', '--length=0']), ('step', ['--init=IndInit', '--length=1'])):
         try:
-            p = subprocess.run(['apalache-mc', 'check', '--cinit=ConstInit', '--inv=IndInv', '--out-dir=' + out_dir] + extra + ['Expiry.tla'],
+            p = subprocess.run(['apalache-mc', 'check', '--cinit=ConstInit', '--inv=IndInv', '--out-dir=' + out_dir] + extra + [module + '.tla'],
                                cwd=d, stdout=subprocess.PIPE, stderr=subprocess.STDOUT, text=True, timeout=600)
             ok = 'The outcome is: NoError' in p.stdout
             res.append((what, ok, p.stdout[-400:] if not ok else ''))
         except (OSError, subprocess.TimeoutExpired) as e:
             res.append((what, None, str(e)))
     shutil.rmtree(out_dir, ignore_errors=True)
-    rep.extra['apalache_expiry'] = [{'obligation': w, 'discharged': ok} for w, ok, _ in res]
+    rep.extra['apalache_' + module.lower()] = [{'obligation': w, 'discharged': ok} for w, ok, _ in res]
     if any(ok is False for _, ok, _ in res):
-        rep.viol.append({'prop': 'C12', 'pred': 'model:Expiry.IndInv', 'i': 0, 'tag': 'apalache', 'trace': None, 'event': None,
+        rep.viol.append({'prop': prop, 'pred': 'model:%s.IndInv' % module, 'i': 0, 'tag': 'apalache', 'trace': None, 'event': None,
                          'model_output': '\n'.join(o for _, _, o in res)})
     elif all(ok for _, ok, _ in res):
-        rep.notes.append('Apalache: Init => IndInv and IndInv /\\ Next => IndInv\' discharged for Expiry.tla (unbounded clock and counters, D in 1..100000, 3 aircraft)')
+        rep.notes.append('Apalache: Init => IndInv and IndInv /\\ Next => IndInv\' discharged for %s.tla (%s)' % (module, scope))
     else:
         rep.notes.append('Apalache not available or timed out (not load-bearing): %s' % res)
+
+
+def apalache_expiry(rep):
+    apalache_ind(rep, 'C12', 'Expiry', 'unbounded clock and counters, D in 1..100000, 3 aircraft')
 
 
 def c12(tier):
@@ -1370,6 +1374,19 @@ def c12(tier):
         if '-i' in opts:
             g[0] = {'c': 'reset', 'opts': opts, 'slot': 0}
         groups.append(g)
+    # every supported format (and every kind of extended squitter, DF18 included) as the one frame that keeps a row alive:
+    # heard at D-1 s, so at D+1 s the row is 2 s old although its creation is D+1 s ago; then a sweep
+    k = 0
+    for D in (5, 60):
+        for opts in ([], ['-U'], ['-R']):
+            a, b = 0x4c4000 + k, 0x4c4800 + k
+            k += 1
+            refreshers = nine_frames(a, rng) + [x for x in other_format_frames(a, rng) if x[0] in '89'] + \
+                [df17(rng.getrandbits(3), a, me_ident(4, 1, callsign_codes('TISB')), df=18), df17(2, a, me_velocity(1, 0, 100, 1, 200, 0, 10), df=18)]
+            for fr in refreshers:
+                g = [reset(['-d', str(D)] + opts), run1(df11(5, a)), tick((D - 1) * 1000), run1(fr), tick(2000),
+                     runn([rng.choice(nine_frames(b, rng)) for _ in range(13)]), runn([df11(5, b)])]
+                groups.append(g)
     binary = vlib.build_harness('release')
     rt = realtime_crosscheck(binary)
     rep.notes.append('real-time cross-check of stamp shifting passed: %s' % rt)
@@ -1377,7 +1394,8 @@ def c12(tier):
     rep.rule = ('(i) every maximal path of the bounded expiry model (TLC; delete_after/depth %s; frames fed in batches of 1/10/11 so that the '
                 '12-frame sweep is reached) replayed as multi-line reader runs separated by stamp shifts of D-1, D, D+1 s, with and without -U; '
                 '(ii) %d random schedules over every supported format with delete_after in {1,5,60,600%s}, silences on both sides of and at '
-                'the limit, runs of 1..25 frames. Judged per run: heard < delete_after ago => present; stale at run start, silent, >= 12 '
+                'the limit, runs of 1..25 frames; (iii) every format / extended-squitter kind (DF18 too) as the single frame that refreshes a row '
+                'one second before it would go stale, followed by a sweep. Judged per run: heard < delete_after ago => present; stale at run start, silent, >= 12 '
                 'accepted frames => gone; stamp restarts with every accepted frame; re-heard after a sweep => fresh row. Non-trivial = run '
                 'with an aircraft definitely stale or definitely fresh; distinct by (lines, slot)' %
                 (cfgs, nr, ',86400' if tier == 'thorough' else ''))
@@ -1799,6 +1817,8 @@ def c18(tier):
     r = vlib.tlc_model('MC_tcp', workers=8, timeout=1200)
     rep.add_model(r, 'TCP life-cycle model: all scripts of <= 3 faults over {refuse, close, frames, partial+reset, partial+close, junk} then a healthy connection: '
                      'ConnKeepsTable, NoLoss, PauseRespected (safety) and Recovers (liveness under weak fairness)')
+    apalache_ind(rep, 'C18', 'TcpInd', 'any number and order of faults, unbounded clock, Pause in 1..100000: nothing learned is lost, what a '
+                 'connection delivered is in the table while it is up, no attempt sooner than Pause after a refused one')
     binary = vlib.build_cli('release')
     if tier == 'quick':
         seqs = [('refuse',), ('close',), ('frames', 'partial'), ('junk', 'refuse'), ('partial', 'frames'), ('frames', 'close', 'junk'),
